@@ -383,7 +383,7 @@ func runScaleStream(seed int64, n int, out, backendSpec, tier string) *RunReport
 				for sc := 0; sc < 8; sc++ {
 					size := size
 					if sc == 7 && size == 1500 {
-						size = 4000 // a copy large enough to be flushed in several batches and to grow the bbolt file past its mapping
+						size = 6000 // a copy large enough to be flushed in several batches and to grow the bbolt file past its mapping
 					}
 					idxs := idxSets[(round+size+sc)%len(idxSets)]
 					if size >= 300 && sc <= 1 {
@@ -425,6 +425,9 @@ func runScaleStream(seed int64, n int, out, backendSpec, tier string) *RunReport
 						batch := make([]map[string]interface{}, hi-lo)
 						for i := lo; i < hi; i++ {
 							batch[i-lo] = scaleDoc(i)
+							if sc == 7 && size >= 6000 {
+								batch[i-lo]["pad"] = strings.Repeat("x", 300+i%200) // enough bytes for the copy to outgrow the file's mapping
+							}
 						}
 						rec(&Op{Kind: "Insert", Coll: "c", Docs: batch})
 					}
